@@ -573,6 +573,12 @@ def check(fx, rep, tier):
                             g = F.strip_generics(F.Mir.callee_generic(d[3]) or "").split("::")[-1]
                             if g in ("first", "last", "front", "back", "first_mut", "last_mut", "front_mut") and d[3]["args"]:
                                 guarded = len_guarded(ta, name, m, bl["i"], d[3]["args"][0], {"k": "const", "ty": "usize", "v": "0"})
+                            # `v.iter().min_by_key(..)` / `.max()` / `.next()`: None only for an empty v
+                            if g in ("min_by_key", "max_by_key", "min_by", "max_by", "min", "max", "next", "last") and d[3]["args"]:
+                                it = F.op_base_local(d[3]["args"][0])
+                                for d2 in m.defs().get(ta.root_of(name, it), []) if it is not None else []:
+                                    if d2[0] == "call" and F.strip_generics(F.Mir.callee_generic(d2[3]) or "").split("::")[-1] in ("iter", "iter_mut") and d2[3]["args"]:
+                                        guarded = len_guarded(ta, name, m, bl["i"], d2[3]["args"][0], {"k": "const", "ty": "usize", "v": "0"})
                 if guarded:
                     n_auto += 1
                     rep.oblige(True, "R01.1", key, w, "", sample={"rule": "R01.1", "site": key, "discharge": "first()/last() under a dominating non-emptiness test"} if n_auto <= 12 else None)
